@@ -312,7 +312,7 @@ func TestVfC10Rules(t *testing.T) {
 }
 
 func TestVfC10BadConfig(t *testing.T) {
-	st := vfkit.Stats("TestVfC10BadConfig", "valid configurations mutated in one place: unknown upstream tag in a rule, unknown domain-set tag, duplicate upstream tag, duplicate set tag, missing tag, missing addr, unknown key at a drawn nesting level; oracle: the process exits non-zero within 3 s and never answers a query; non-trivial = every case")
+	st := vfkit.Stats("TestVfC10BadConfig", "valid configurations (drawn rule lists of conditional and unconditional rules in any order) mutated in one place: a rule with an unknown upstream tag or an unknown domain-set tag inserted at any position (also behind a catch-all rule), duplicate upstream tag, duplicate set tag, missing tag, missing addr, unknown key at a drawn nesting level; oracle: the process exits non-zero within 3 s and never answers a query; non-trivial = every case")
 	defer vfkit.Flush()
 	rapid.Check(t, func(t *rapid.T) {
 		block := NextIPBlock()
@@ -325,27 +325,61 @@ func TestVfC10BadConfig(t *testing.T) {
 			Limiter:    &LimiterCfg{Client: &ClientLimiterCfg{Limit: 1000}},
 		}
 		files := map[string]string{"a.txt": "example.com\n"}
+		kind0 := ""
+		// the valid base: a drawn rule list (conditional and unconditional rules in any order), then one mutation
+		templates := []Rule{{Domain: "s1", Forward: "u1"}, {Domain: "s2", Reject: 3}, {Forward: "u2"}, {Reject: 2}, {Domain: "s1", Forward: "u2"}}
+		nRules := rapid.IntRange(1, 5).Draw(t, "nRules")
+		cfg.Rules = nil
+		for i := 0; i < nRules; i++ {
+			cfg.Rules = append(cfg.Rules, templates[rapid.IntRange(0, len(templates)-1).Draw(t, "rule")])
+		}
+		insert := func(r Rule) {
+			at := rapid.IntRange(0, len(cfg.Rules)).Draw(t, "insertAt")
+			cfg.Rules = append(cfg.Rules[:at], append([]Rule{r}, cfg.Rules[at:]...)...)
+			for _, b := range cfg.Rules[:at] {
+				if b.Domain == "" {
+					kind0 = "after-catch-all"
+				}
+			}
+		}
+		retag := func(from, to string) {
+			for i := range cfg.Rules {
+				if cfg.Rules[i].Forward == from {
+					cfg.Rules[i].Forward = to
+				}
+				if cfg.Rules[i].Domain == from {
+					cfg.Rules[i].Domain = to
+				}
+			}
+		}
 		kind := rapid.SampledFrom([]string{"unknown-upstream", "unknown-set", "dup-upstream", "dup-set", "missing-tag", "missing-addr", "missing-set-tag", "unknown-key"}).Draw(t, "mutation")
 		yml := ""
 		switch kind {
 		case "unknown-upstream":
-			cfg.Rules[rapid.SampledFrom([]int{0, 2}).Draw(t, "rule")].Forward = "nope"
+			insert(Rule{Domain: rapid.SampledFrom([]string{"", "s1", "s2"}).Draw(t, "badRuleDomain"), Forward: "nope"})
 		case "unknown-set":
-			cfg.Rules[rapid.IntRange(0, 1).Draw(t, "rule")].Domain = "nope"
+			bad := Rule{Domain: "nope"}
+			switch rapid.IntRange(0, 2).Draw(t, "badRuleAction") {
+			case 0:
+				bad.Forward = "u1"
+			case 1:
+				bad.Reject = 3
+			}
+			insert(bad)
 		case "dup-upstream":
 			cfg.Upstreams[1].Tag = "u1"
-			cfg.Rules[2].Forward = "u1"
+			retag("u2", "u1")
 		case "dup-set":
 			cfg.DomainSets[1].Tag = "s1"
-			cfg.Rules[1].Domain = "s1"
+			retag("s2", "s1")
 		case "missing-tag":
 			cfg.Upstreams[1].Tag = ""
-			cfg.Rules[2].Forward = "u1"
+			retag("u2", "u1")
 		case "missing-addr":
 			cfg.Upstreams[1].Addr = ""
 		case "missing-set-tag":
 			cfg.DomainSets[1].Tag = ""
-			cfg.Rules[1].Domain = "s1"
+			retag("s2", "s1")
 		case "unknown-key":
 			var tree map[string]any
 			if err := yaml.Unmarshal([]byte(cfg.YAML()), &tree); err != nil {
@@ -399,6 +433,10 @@ func TestVfC10BadConfig(t *testing.T) {
 		if c := p.Crashed(); c != "" {
 			t.Fatalf("configuration with %s crashed the process instead of being rejected: %s", kind, c)
 		}
-		st.Case(vfkit.Fingerprint(yml), true, []string{strings.SplitN(kind, ":", 2)[0]}, func() any { return map[string]any{"mutation": kind, "exit": p.ExitCode} })
+		classes := []string{strings.SplitN(kind, ":", 2)[0]}
+		if kind0 != "" {
+			classes = append(classes, kind0)
+		}
+		st.Case(vfkit.Fingerprint(yml), true, classes, func() any { return map[string]any{"mutation": kind, "exit": p.ExitCode, "rules": len(cfg.Rules)} })
 	})
 }
